@@ -7,7 +7,7 @@ import sys
 
 from hypothesis import strategies as st
 
-from vf import gen
+from vf import dense, gen
 from vf.core import Clause, Property, Violation
 from vf.osk import IS_TM, call_kwargs, eff_limit, eff_tau, guarded, mk_model, mk_teams, rate_values
 from vf.stateful import machine_factory, replayer
@@ -222,6 +222,9 @@ PROPERTY = Property(
     clauses=[
         Clause(name="single-call", strategy=gen.games(), check=check_single, quick=8000, thorough=150000,
                rule="one rate() call; non-trivial = limit_sigma clamp binds, or the kappa floor binds, or a TM pair was constructed at |x| in [5, 8.3]"),
+        Clause(name="dense-two-team-sweep", strategy=dense.two_team_sweep(), check=check_single, quick=12000, thorough=400000,
+               rule="two-team games whose standardised gap x = dmu / c_iq is drawn UNIFORMLY from [-10, 10] (spacing ~1e-3 in the quick tier, 5e-5 in "
+                    "the thorough tier), sigma / beta log-uniform, all three outcomes: same oracle; non-trivial as for single-call"),
         Clause(name="league-history", kind="stateful", machine=machine_factory(League), check=replayer(League),
                quick=160, thorough=3000, steps_quick=50, steps_thorough=300,
                rule="rule-based machine: league of 6-12 players, returned ratings fed back, per-call tau/limit_sigma arbitrary; invariants after every "
